@@ -4,7 +4,7 @@
    its type, and re-encoding reproduces the input. *)
 Require Import RM.Base RM.Gindex RM.Tree RM.TreeProofs RM.Types RM.Spec RM.ModelViews RM.ModelCodec
                RM.SerLen RM.FactsProofs RM.MerkleProofs RM.PackProofs RM.CtorProofs RM.PathProofs RM.CRepProofs
-               RM.ListProofs RM.SerProofs RM.CodecBasicProofs RM.SerProofs2 RM.BitProofs RM.ChunkProofs RM.DeserProofs.
+               RM.ListProofs RM.SerProofs RM.CodecBasicProofs RM.SerProofs2 RM.BitProofs RM.ChunkProofs RM.DeserProofs RM.SerAll.
 From Coq Require Import ZifyBool ZifyNat ZifyN.
 Local Open Scope N_scope.
 
@@ -579,6 +579,196 @@ Proof.
       pose proof (snd_ser_go_off (cparts fs vs) o0 0) as Eoff.
       destruct (ser_go (cparts fs vs) o0) as [fx vr]. cbn [fst snd] in *. subst fx. rewrite Eoff.
       rewrite <- app_assoc, <- Es1. exact Es.
+Qed.
+
+Lemma pick_nth {A : Type} (F : ty -> A) (dflt : A) : forall os i,
+  (fix pick (os : list ty) (i : nat) : A :=
+     match os, i with o :: _, O => F o | _ :: os', S i' => pick os' i' | [], _ => dflt end) os i
+  = match nth_error os i with Some o => F o | None => dflt end.
+Proof. induction os as [|o os IH]; intros [|i]; cbn; auto. Qed.
+
+Lemma byte_of_to_N z : byte_of_N (Byte.to_N z) = z.
+Proof.
+  unfold byte_of_N. pose proof (Byte.to_N_bounded z) as Hb. rewrite N.mod_small by lia. now rewrite Byte.of_to_N.
+Qed.
+
+Lemma sound_union b os : wf_ty (TUnion b os) = true -> Forall sound os -> sound (TUnion b os).
+Proof.
+  intros Hty Hs s scope n rest Hd Hsc. cbn [wf_ty] in Hty. apply andb_true_iff in Hty as [Hty Hcount]. apply andb_true_iff in Hty as [Htys Hne].
+  apply N.leb_le in Hcount. cbn [ModelCodec.deser_impl] in Hd.
+  destruct (scope <? 1) eqn:Hs1; [discriminate|]. apply N.ltb_ge in Hs1.
+  destruct (read 1 s) as [bsel s1] eqn:Hr. destruct (read_split 1 s bsel s1 ltac:(lia) Hr) as [Es Hl1].
+  destruct bsel as [|z [|z2 bs2]]; try (unfold lenN in Hl1; cbn [length] in Hl1; lia).
+  assert (le_val [z] = Byte.to_N z) as Elv by (cbn; lia). rewrite Elv in Hd. set (sel := Byte.to_N z) in *.
+  destruct (lenN os + (if b then 1 else 0) <=? sel) eqn:Hin; [discriminate|]. apply N.leb_gt in Hin.
+  destruct (b && (sel =? 0)) eqn:Hb0.
+  - destruct (scope =? 1) eqn:Esc1; cbn [negb] in Hd; [|discriminate]. apply N.eqb_eq in Esc1. inversion Hd; subst n rest scope.
+    apply andb_true_iff in Hb0 as [Hb Hz]. apply N.eqb_eq in Hz. subst b.
+    exists (VUnion 0 None). cbn [wf ModelViews.mk Spec.ser andb Nat.eqb N.of_nat]. split; [reflexivity|].
+    assert ((lenN os + 1 <=? 0) = false) as -> by (apply N.leb_gt; lia). cbn [bind]. rewrite Hz. split; [reflexivity|]. split; [reflexivity|].
+    rewrite Es. cbn [app]. f_equal. rewrite <- (byte_of_to_N z). fold sel. now rewrite Hz.
+  - rewrite pick_nth in Hd. set (i := N.to_nat (if b then sel - 1 else sel)) in *.
+    destruct (nth_error os i) as [o|] eqn:Hnth; [|discriminate].
+    destruct (deser_impl o s1 (scope - 1)) as [[n1 r1]|] eqn:Hdo; [|discriminate]. cbn [bind fst snd] in Hd. inversion Hd; subst n rest.
+    assert (sound o) as Ho by (rewrite Forall_forall in Hs; apply Hs; eapply nth_error_In; eauto).
+    destruct (Ho s1 (scope - 1) n1 r1 Hdo) as (v1 & Hw1 & Hm1 & Hlv & Es1).
+    { rewrite Es, lenN_app in Hsc. lia. }
+    assert ((if b then pred (N.to_nat sel) else N.to_nat sel) = i) as Ei by (unfold i; destruct b; lia).
+    assert ((b && (N.to_nat sel =? 0)%nat) = false) as Hb0'.
+    { destruct b; [|reflexivity]. cbn [andb] in *. apply N.eqb_neq in Hb0. apply Nat.eqb_neq. lia. }
+    exists (VUnion (N.to_nat sel) (Some v1)). cbn [wf ModelViews.mk Spec.ser]. rewrite N2Nat.id, Ei, Hb0', !pick_nth, Hnth.
+    assert ((lenN os + (if b then 1 else 0) <=? sel) = false) as -> by (apply N.leb_gt; lia).
+    split.
+    + rewrite Hw1, andb_true_r. destruct b; [|reflexivity]. cbn [andb] in Hb0'. now rewrite Hb0'.
+    + rewrite Hm1. cbn [bind]. split; [reflexivity|]. rewrite lenN_cons, Hlv. split; [lia|].
+      unfold sel. rewrite byte_of_to_N. rewrite Es, Es1. reflexivity.
+Qed.
+
+Lemma split_at (k : N) (s : bytes) : k <= lenN s -> exists B sfx, s = B ++ sfx /\ lenN B = k.
+Proof.
+  intros Hk. exists (firstn (N.to_nat k) s), (skipn (N.to_nat k) s). split; [now rewrite firstn_skipn|].
+  unfold lenN in *. rewrite firstn_length. lia.
+Qed.
+
+Lemma sound_bitvector k : wf_ty (TBitvector k) = true -> sound (TBitvector k).
+Proof.
+  intros Hty s scope n rest Hd Hsc. pose proof Hty as Hty0. cbn [wf_ty] in Hty. apply andb_true_iff in Hty as [Hk1 Hkb]. apply N.leb_le in Hk1.
+  pose proof Hd as Hd0. cbn [ModelCodec.deser_impl] in Hd.
+  destruct (scope =? (k + 7) / 8) eqn:Esc; cbn [negb] in Hd; [|discriminate]. apply N.eqb_eq in Esc.
+  destruct (split_at scope s Hsc) as (B & sfx & Es & HB). subst s. rewrite <- HB in Hd.
+  destruct (rfc_spec H (N.to_nat (lenN B / 32)) B sfx) as (cs & lastp & Hr & Hlp & HBs & Hcs).
+  { unfold lenN in *. lia. }
+  rewrite Hr, read_app in Hd.
+  destruct (exists_last (l := lastp)) as (lp' & lastb & Elp); [intros ->; cbn in Hlp; lia|]. subst lastp.
+  replace (N.to_nat (lenN (lp' ++ [lastb]) - 1)) with (length lp') in Hd by (unfold lenN; rewrite app_length; cbn [length]; lia).
+  rewrite nth_error_app2, Nat.sub_diag in Hd by lia. cbn [nth_error] in Hd.
+  destruct (k <? (lenN B - 1) * 8 + bit_length_byte lastb) eqn:Hbl; [discriminate|]. apply N.ltb_ge in Hbl.
+  (* the value *)
+  set (P := concat cs ++ lp') in *. assert (B = P ++ [lastb]) as EB by (unfold P; rewrite <- app_assoc; exact HBs).
+  assert (lenN B = lenN P + 1) as HlB by (rewrite EB, lenN_app; reflexivity).
+  set (r := N.to_nat (k - 8 * lenN P)).
+  assert (1 <= r <= 8)%nat as Hr8 by (unfold r; lia).
+  set (bs := bytes_to_bits P ++ firstn r (bits_of_byte lastb)).
+  assert (lenN bs = k) as Hlbs.
+  { unfold bs, lenN. rewrite app_length, bytes_to_bits_length, firstn_length, bits_of_byte_length. unfold lenN in *. lia. }
+  assert (bits_to_bytes bs = B) as Hbytes.
+  { unfold bs. rewrite bits_to_bytes_concat by (rewrite firstn_length, bits_of_byte_length; lia).
+    rewrite EB. f_equal. destruct (firstn r (bits_of_byte lastb)) as [|b0 t0] eqn:Et.
+    - exfalso. apply (f_equal (@length bool)) in Et. rewrite firstn_length, bits_of_byte_length in Et. cbn in Et. lia.
+    - rewrite <- Et. f_equal. apply trunc_byte; [lia|]. unfold r. lia. }
+  assert (wf (TBitvector k) (VBits bs) = true) as Hwf by (cbn [wf]; now apply N.eqb_eq).
+  destruct (mk_root H (TBitvector k) (VBits bs) Hty0 Hwf) as (nd & Hmk & _).
+  pose proof (deser_bitvector H k bs nd Hty0 Hwf Hmk sfx) as Hfw. cbn [Spec.ser] in Hfw. rewrite Hbytes in Hfw.
+  rewrite HB in Hfw. rewrite Hfw in Hd0. inversion Hd0; subst nd rest.
+  exists (VBits bs). split; [exact Hwf|]. split; [exact Hmk|]. cbn [Spec.ser]. rewrite Hbytes. split; [exact HB|reflexivity].
+Qed.
+Lemma sound_bitlist l : wf_ty (TBitlist l) = true -> sound (TBitlist l).
+Proof.
+  intros Hty s scope n rest Hd Hsc. pose proof Hty as Hty0. cbn [wf_ty] in Hty. apply N.ltb_lt in Hty. unfold LIMIT_BOUND in Hty.
+  pose proof Hd as Hd0. cbn [ModelCodec.deser_impl] in Hd.
+  destruct (scope <? 1) eqn:Hs1; [discriminate|]. apply N.ltb_ge in Hs1.
+  destruct ((l + 7 + 1) / 8 <? scope) eqn:Hs2; [discriminate|]. apply N.ltb_ge in Hs2.
+  destruct (split_at scope s Hsc) as (B & sfx & Es & HB). subst s. rewrite <- HB in Hd.
+  destruct (rfc_spec H (N.to_nat (lenN B / 32)) B sfx) as (cs & lastp & Hr & Hlp & HBs & Hcs).
+  { unfold lenN in *. lia. }
+  rewrite Hr, read_app in Hd.
+  destruct (exists_last (l := lastp)) as (lp' & lastb & Elp); [intros ->; cbn in Hlp; lia|]. subst lastp.
+  replace (N.to_nat (lenN (lp' ++ [lastb]) - 1)) with (length lp') in Hd by (unfold lenN; rewrite app_length; cbn [length]; lia).
+  rewrite nth_error_app2, Nat.sub_diag in Hd by lia. cbn [nth_error] in Hd.
+  destruct (byte_eqb lastb x00) eqn:Hz; [discriminate|].
+  assert (lastb <> x00) as Hnz by (intros ->; cbn in Hz; discriminate).
+  destruct (delim_byte lastb Hnz) as [Hdel Hlt8].
+  set (lbl := bit_length_byte lastb - 1) in *.
+  destruct (l <? (lenN B - 1) * 8 + lbl) eqn:Hbl.
+  { discriminate. }
+  apply N.ltb_ge in Hbl.
+  set (P := concat cs ++ lp') in *. assert (B = P ++ [lastb]) as EB by (unfold P; rewrite <- app_assoc; exact HBs).
+  assert (lenN B = lenN P + 1) as HlB by (rewrite EB, lenN_app; reflexivity).
+  set (t := firstn (N.to_nat lbl) (bits_of_byte lastb)) in *.
+  assert (length t = N.to_nat lbl) as Hlt by (unfold t; rewrite firstn_length, bits_of_byte_length; lia).
+  set (bs := bytes_to_bits P ++ t).
+  assert (lenN bs = (lenN B - 1) * 8 + lbl) as Hlbs.
+  { unfold bs, lenN. rewrite app_length, bytes_to_bits_length, Hlt. unfold lenN in *. lia. }
+  assert (bits_to_bytes (bs ++ [true]) = B) as Hbytes.
+  { unfold bs. rewrite <- app_assoc. rewrite bits_to_bytes_concat by (rewrite app_length; cbn [length]; lia).
+    rewrite EB. f_equal. destruct (t ++ [true]) as [|b0 t0] eqn:Et; [destruct t; discriminate|]. now rewrite Hdel. }
+  assert (wf (TBitlist l) (VBits bs) = true) as Hwf by (cbn [wf]; apply N.leb_le; lia).
+  destruct (mk_root H (TBitlist l) (VBits bs) Hty0 Hwf) as (nd & Hmk & _).
+  pose proof (deser_bitlist H l bs nd Hty0 Hwf Hmk sfx) as Hfw. cbn [Spec.ser] in Hfw. rewrite Hbytes in Hfw.
+  rewrite HB in Hfw. rewrite Hfw in Hd0. inversion Hd0; subst nd rest.
+  exists (VBits bs). split; [exact Hwf|]. split; [exact Hmk|]. cbn [Spec.ser]. rewrite Hbytes. split; [exact HB|reflexivity].
+Qed.
+
+(* ---- every type ---- *)
+Theorem deser_sound : forall t, wf_ty t = true -> sound t.
+Proof.
+  induction t as [k| |nn|l|nn|l|e nn IHe|e l IHe|fs Hfs|b os Hos] using ty_ind'; intros Hty.
+  - now apply sound_uint.
+  - exact sound_bool.
+  - now apply sound_bitvector.
+  - now apply sound_bitlist.
+  - apply sound_bytevector.
+  - apply sound_bytelist.
+  - apply sound_vector; [exact Hty|]. apply IHe. cbn [wf_ty] in Hty. apply andb_true_iff in Hty as [Hty _]. now apply andb_true_iff in Hty as [Hte _].
+  - apply sound_list; [exact Hty|]. apply IHe. cbn [wf_ty] in Hty. now apply andb_true_iff in Hty as [Hte _].
+  - apply sound_container; [exact Hty|]. cbn [wf_ty] in Hty. apply andb_true_iff in Hty as [_ Htys].
+    rewrite forallb_forall in Htys. rewrite Forall_forall in *. intros f Hf. apply Hfs; auto.
+  - apply sound_union; [exact Hty|]. cbn [wf_ty] in Hty. apply andb_true_iff in Hty as [Hty _]. apply andb_true_iff in Hty as [Htys _].
+    rewrite forallb_forall in Htys. rewrite Forall_forall in *. intros f Hf. apply Hos; auto.
+Qed.
+
+(* consequences: what is accepted is canonical, well-formed and stable *)
+Corollary deser_canonical t s scope n rest (src : bytes -> option (bytes * bytes)) : wf_ty t = true ->
+  deser_impl t s scope = Ok (n, rest) -> scope <= lenN s ->
+  exists v, wf t v = true /\ mk t v = Ok n /\ s = ser t v ++ rest /\ lenN (ser t v) = scope /\
+            root H n = htr H t v /\ ser_impl H src t n = Ok (ser t v, scope).
+Proof.
+  intros Hty Hd Hsc. destruct (deser_sound t Hty s scope n rest Hd Hsc) as (v & Hw & Hm & Hl & Es).
+  exists v. split; [exact Hw|]. split; [exact Hm|]. split; [exact Es|]. split; [exact Hl|].
+  destruct (mk_root H t v Hty Hw) as (n' & Hm' & Hr). rewrite Hm in Hm'. inversion Hm'; subst n'. split; [exact Hr|].
+  rewrite <- Hl. exact (SerAll.ser_constructed H src t v n Hty Hw Hm).
+Qed.
+
+(* decode_bytes: the whole input is the encoding *)
+Corollary decode_bytes_canonical t bs n (src : bytes -> option (bytes * bytes)) : wf_ty t = true ->
+  decode_bytes H t bs = Ok n ->
+  exists v, wf t v = true /\ bs = ser t v /\ mk t v = Ok n /\ root H n = htr H t v /\
+            ser_impl H src t n = Ok (bs, lenN bs).
+Proof.
+  intros Hty Hd. unfold decode_bytes in Hd. destruct (deser_impl t bs (lenN bs)) as [[n' rest]|] eqn:Hdi; [|discriminate].
+  cbn [bind fst] in Hd. inversion Hd; subst n'.
+  destruct (deser_canonical t bs (lenN bs) n rest src Hty Hdi ltac:(lia)) as (v & Hw & Hm & Es & Hl & Hr & Hser).
+  assert (rest = []) as ->.
+  { apply (f_equal lenN) in Es. rewrite lenN_app in Es. destruct rest; [reflexivity|]. rewrite lenN_cons in Es. lia. }
+  rewrite app_nil_r in Es. exists v. rewrite <- Es in Hser. auto 6.
+Qed.
+
+(* two inputs accepted with the same result are the same input *)
+Corollary decode_bytes_injective t bs1 bs2 n : wf_ty t = true ->
+  decode_bytes H t bs1 = Ok n -> decode_bytes H t bs2 = Ok n -> bs1 = bs2.
+Proof.
+  intros Hty H1 H2.
+  destruct (decode_bytes_canonical t bs1 n (fun _ => None) Hty H1) as (_ & _ & _ & _ & _ & S1).
+  destruct (decode_bytes_canonical t bs2 n (fun _ => None) Hty H2) as (_ & _ & _ & _ & _ & S2).
+  rewrite S1 in S2. now inversion S2.
+Qed.
+
+(* the accepted language is exactly the set of valid encodings (below the 4 GiB offset limit) *)
+Corollary accepted_iff_valid t bs : wf_ty t = true -> lenN bs < 2 ^ 32 ->
+  ((exists n, decode_bytes H t bs = Ok n) <-> (exists v, wf t v = true /\ bs = ser t v)).
+Proof.
+  intros Hty Hb. split.
+  - intros (n & Hd). destruct (decode_bytes_canonical t bs n (fun _ => None) Hty Hd) as (v & Hw & Es & _). eauto.
+  - intros (v & Hw & ->). destruct (roundtrip_total H t v Hty Hw Hb) as (n & _ & _ & _ & Hd). eauto.
+Qed.
+
+(* accepted values survive a further encode / decode cycle *)
+Corollary decode_stable t bs n (src : bytes -> option (bytes * bytes)) : wf_ty t = true -> lenN bs < 2 ^ 32 ->
+  decode_bytes H t bs = Ok n ->
+  exists e, ser_impl H src t n = Ok (e, lenN e) /\ decode_bytes H t e = Ok n.
+Proof.
+  intros Hty Hb Hd. destruct (decode_bytes_canonical t bs n src Hty Hd) as (v & Hw & Es & Hm & _ & Hser).
+  exists bs. split; [exact Hser|exact Hd].
 Qed.
 
 End WithHash.
